@@ -30,6 +30,25 @@ def scenarios(ctx):
                                                 "level": rng.choice(["http", "http", "set"]) if nsrc == 1 else "http",
                                                 "extract": rng.choice(["custom", "custom", "header"]), "qualified": True},
                     "steps": steps})
+    # non-integral periods with the largest burst the property admits (5 x average); drain, stay idle for a gap around the
+    # entry lifetime (10 x floor(period) + 1 s) at every phase of the wall-clock second, drain again
+    k = 0
+    for (p_ticks, a) in [(19, 19), (15, 5), (15, 15), (25, 5), (19, 1), (12, 4), (29, 29)]:
+        b = 5 * a
+        rates = [{"p": p_ticks, "a": a, "b": b}]
+        ttl = ((p_ticks // 10) * 10 + 1) * 10
+        phases = range(10) if not quick else rng.sample(range(10), 3)
+        for ph in phases:
+            for gap in ([ttl - 20, ttl - 11, ttl - 10, ttl - 9, ttl - 5, ttl - 1, ttl, ttl + 1] if not quick else rng.sample(range(ttl - 20, ttl + 2), 4)):
+                steps = []
+                if ph:
+                    steps.append({"op": "adv", "d": ph})
+                steps += [{"op": "req", "src": "s1", "n": rng.choice([1, a])} for _ in range(b + 2)]
+                steps.append({"op": "adv", "d": max(1, gap)})
+                steps += [{"op": "req", "src": "s1", "n": rng.choice([1, a])} for _ in range(b + 2)]
+                out.append({"id": "frac-%d" % k, "cfg": {"tick_ms": 100, "rates": rates, "cap": 8, "level": "http", "extract": "custom",
+                                                         "qualified": True}, "steps": steps})
+                k += 1
     for s in out:
         if s["cfg"].get("extract") in ("header", "ip"):
             for st in s["steps"]:
